@@ -43,17 +43,30 @@ impl PidAllocator {
     }
 
     pub fn allocate(&self) -> Result<ExternalPid> {
+        #[cfg(feature = "verif-hooks")]
+        {
+            crate::verif::sync_point("pid_alloc:enter");
+            crate::verif::lock_probe(&self.wrap_lock, "pid_alloc:blocked");
+        }
         let _guard = self.wrap_lock.lock().map_err(|e| {
             Error::InvalidStateMessage(format!("PID allocator lock poisoned: {}", e))
         })?;
 
+        #[cfg(feature = "verif-hooks")]
+        crate::verif::sync_point("pid_alloc:before_load");
         let id = self.next_id.load(Ordering::Relaxed);
+        #[cfg(feature = "verif-hooks")]
+        crate::verif::sync_point("pid_alloc:loaded_id");
         let serial_u64 = self.next_serial.load(Ordering::Relaxed);
         let serial = (serial_u64 % (u32::MAX as u64 + 1)) as u32;
+        #[cfg(feature = "verif-hooks")]
+        crate::verif::sync_point("pid_alloc:loaded_serial");
 
         let next_id = id + 1;
         if id >= MAX_PROCESSES_PER_NODE {
             self.next_id.store(1, Ordering::Relaxed);
+            #[cfg(feature = "verif-hooks")]
+            crate::verif::sync_point("pid_alloc:wrap_stored_id");
             let new_serial = self.next_serial.fetch_add(1, Ordering::Relaxed) + 1;
             let wrapped_serial = (new_serial % (u32::MAX as u64 + 1)) as u32;
 
